@@ -9,8 +9,10 @@ keyspace are compared.  Oracle on the implementation's output (linearizability a
 commit instants): folding the calls whose `exec:ok` appears in the trace, in trace order, each
 applied atomically (`AbsState.add/update/remove`) to the then-current registry, must give the
 records of the final dump, each committed call's result must be the atomic call's result, a call
-that never committed must not report success with an effect, no reader may fail, and every
-client must have finished.
+that never committed must report a lock error or the result of a no-effect atomic call on one of
+the registries the replay passes through (`idle`), no reader may fail and every record a reader
+reports must be the replayed registry's record of that address at the instant of its `HMGET`
+(`readersOk`), and every client must have finished.
 -/
 namespace Swat4.Drv.C09
 open Swat4 Swat4.Drv Std
@@ -85,11 +87,32 @@ def svCore (dump : String) : List (String × String) :=
 def absCore (a : AbsState) : List (String × String) :=
   a.servers.toList.map fun (_, r) => (r.svr.addr.render, s!"{r.svr.queryPort},{r.svr.status.toNat},{r.svr.version},{renderTime r.svr.refreshedAt}")
 
-/-- the linearizability oracle (see the file header) -/
+/-- result a writer reports for an atomic call that has NO effect on the registry `a` (`none`: the call would change `a`) -/
+def noEffectResult (a : AbsState) (kind : WKind) (svr : Server) (r : Resolver) : Option String :=
+  match kind with
+  | .add =>
+    let (a', x) := a.add epoch svr r
+    if absCore a' != absCore a then none else
+    match x with | .ok s => some s!"ok:{renderServer s}" | .error .serverExists => some "err:exists" | .error _ => none
+  | .update =>
+    let (a', x) := a.update epoch svr r
+    if absCore a' != absCore a then none else
+    match x with | .ok s => some s!"ok:{renderServer s}" | .error .serverNotFound => some "err:notfound" | .error _ => none
+  | .remove =>
+    let (a', _) := a.remove svr r
+    if absCore a' != absCore a then none else some "ok"
+
+/-- the linearizability oracle (see the file header).
+
+Driver-implemented semantics (not `Model/` or `Spec/` definitions): the replay of the committed calls (`exec:ok` trace entries)
+through `AbsState.add/update/remove`, `idle` (a writer that never committed reports a lock error or the result of a
+no-effect atomic call on one of the registries the replay passes through) and `readersOk` (every record a reader reports
+is, field for field, the record the replayed registry holds for that address at the instant of the reader's `HMGET`). -/
 def oracle (inits : List Server) (specs : List Spec) (trace res dump : String) : Bool × String :=
   let a0 : AbsState := inits.foldl (fun a s => (a.save epoch { s with version := s.version - 1 }).1) {}
-  let commits := (trace.splitOn ",").filterMap fun e =>
-    match e.splitOn ":" with
+  let events := (trace.splitOn ",").map (·.splitOn ":")
+  let commits := events.filterMap fun e =>
+    match e with
     | [i, "exec", "ok"] => i.toNat?
     | _ => none
   let results := res.splitOn ";"
@@ -104,22 +127,58 @@ def oracle (inits : List Server) (specs : List Spec) (trace res dump : String) :
       let got := results.getD i "?"
       if got == expect then (a', ok, why) else (a', false, why ++ s!" commit-result-mismatch:client{i}:got={got}:want={expect}")
     | _ => (a, false, why ++ s!" commit-by-non-writer:{i}")
-  let (aF, ok1, why1) := commits.foldl step (a0, true, "")
+  -- one pass over the trace: the registry after every commit (`states`, oldest first) and the registry each reader's
+  -- `HMGET` saw (`seen`: reader index ↦ registry at that instant)
+  let pass := events.foldl (fun (acc : (AbsState × Bool × String) × List AbsState × List (Nat × AbsState)) e =>
+    let (cur, states, seen) := acc
+    match e with
+    | [i, "exec", "ok"] =>
+      match i.toNat? with
+      | some i => let cur' := step cur i; (cur', states ++ [cur'.1], seen)
+      | none => acc
+    | [i, "hmget", _] =>
+      match i.toNat? with
+      | some i => (cur, states, seen ++ [(i, cur.1)])
+      | none => acc
+    | _ => acc) ((a0, true, ""), [a0], [])
+  let ((aF, ok1, why1), states, seen) := pass
   let sameRows := absCore aF == svCore dump
   let noDup := commits.eraseDups.length == commits.length
   let finished := !(results.any fun r => r == "hung" || r.startsWith "panic")
-  -- a call that did not commit changes nothing: its reported result must be an error or a no-effect success
-  let idle := (List.range specs.length).all fun i =>
-    commits.contains i ||
-      match specs[i]? with
-      | some (.r _) => (results.getD i "?").startsWith "ok"
-      | some (.w .remove _ _) => true
-      | some (.w _ _ _) => true
-      | none => false
-  let readersOk := (List.range specs.length).all fun i =>
-    match specs[i]? with | some (.r _) => (results.getD i "?").startsWith "ok" | _ => true
+  -- a writer that did not commit changed nothing (`sameRows`), and what it reports is a lock error or the result of a
+  -- no-effect atomic call on a registry that existed during the run
+  let idleBad := (List.range specs.length).filter fun i =>
+    !commits.contains i &&
+      match (specs[i]? : Option Spec) with
+      | some (Spec.r _) => false
+      | some (Spec.w kind svr r) =>
+        let got := results.getD i "?"
+        !(got == "err:locklost" || got == "err:exhausted" || states.any fun a => noEffectResult a kind svr r == some got)
+      | none => true
+  let idle := idleBad.isEmpty
+  -- a reader never fails, reports no address twice, and every record it reports is exactly the committed record of that
+  -- address at the instant of its fetch (so: written by one writer in full, never a mix, never half a record)
+  let readersBad : List String := (List.range specs.length).filterMap fun i =>
+    match (specs[i]? : Option Spec) with
+    | some (Spec.r _) =>
+      let got := results.getD i "?"
+      if !got.startsWith "ok:" then some s!"client{i}:failed:{got}" else
+      let body := (got.drop 3).toString
+      let recs := if body == "-" then [] else body.splitOn ","
+      let snaps := seen.filterMap fun (j, a) => if j == i then some a else none
+      match snaps with
+      | [a] =>
+        let allowed := a.servers.toList.map fun kv => renderServer kv.2.svr
+        let addrs := recs.map fun r => (r.splitOn "/").headD ""
+        match recs.find? fun r => !allowed.contains r with
+        | some r => some s!"client{i}:not-a-committed-record:{r}:committed-at-fetch={allowed}"
+        | none => if addrs.eraseDups.length != addrs.length then some s!"client{i}:duplicate-address" else none
+      | [] => if recs.isEmpty then none else some s!"client{i}:records-without-fetch"
+      | _ => some s!"client{i}:fetched-twice"
+    | _ => none
+  let readersOk := readersBad.isEmpty
   let ok := ok1 && sameRows && noDup && finished && idle && readersOk && !(trace.endsWith "HUNG")
-  (ok, s!"{why1}{if sameRows then "" else s!" final-rows:impl={svCore dump}:replayed={absCore aF}"}{if noDup then "" else " double-commit"}{if finished then "" else " not-terminated"}{if readersOk then "" else " reader-failed"}")
+  (ok, s!"{why1}{if sameRows then "" else s!" final-rows:impl={svCore dump}:replayed={absCore aF}"}{if noDup then "" else " double-commit"}{if finished then "" else " not-terminated"}{if idle then "" else s!" uncommitted-call-result-not-a-no-effect-result:clients={idleBad}"}{if readersOk then "" else s!" reader:{readersBad}"}")
 
 def handle (args out : List String) : Verdict :=
   -- `sched1`: the same operations run as goroutines of one component (one lock manager, one connection pool);
